@@ -512,7 +512,10 @@ class Blockwise(Expr):
             head = funcname(self.operation)
         else:
             head = funcname(type(self)).lower()
-        return head + "-" + _tokenize_deterministic(*self.operands)
+        # Different classes can share the name of their operation (every
+        # ``operation = staticmethod(...)`` is called "operation"): the class is
+        # part of what the name identifies
+        return head + "-" + _tokenize_deterministic(funcname(type(self)), *self.operands)
 
     def _blockwise_arg(self, arg, i):
         """Return a Blockwise-task argument"""
